@@ -134,6 +134,12 @@ def run(ctx, R, tier):
         if o.rule == "C07-R5":
             R.add("C11-R3", o.key.split("|", 1)[1], o.desc, o.ok, o.loc, o.detail)
 
+    cb = ctx.fn("Pyro5.compatibility.Pyro4.BatchProxy.__call__")
+    sup = [c for c in walk_no_nested(cb.node) if isinstance(c, ast.Call) and isinstance(c.func, ast.Attribute) and c.func.attr == "__call__"]
+    owp = "oneway" if "oneway" in cb.params else None
+    okc = owp is not None and len(sup) == 1 and ((sup[0].args and unparse(sup[0].args[0]) == owp) or any(k.arg == "oneway" and unparse(k.value) == owp for k in sup[0].keywords))
+    R.check(okc, "C11-R4", "compatibility.BatchProxy.__call__|oneway-passed-through", "the Pyro4-style batch hands its own `oneway` argument to BatchProxy.__call__", cb.loc(),
+            "the compatibility BatchProxy does not pass its `oneway` flag on (`%s`): a oneway batch is sent as a normal one, blocks and returns results" % (unparse(sup[0], 60) if sup else "?"))
     from .common import copy_does_not_alias
     copy_does_not_alias(ctx, R, "C11-R4", "Pyro5.client.BatchProxy", "calls queued on one of them are also submitted by the other")
     # ---------------------------------------------------------------- R6 (shared with C01-R9)
